@@ -78,6 +78,10 @@ CLAIMED = {
          'rep(exp2(x)) must be within one of floor(2^x / 2^E) whenever that is representable and exact for integral x; every <numbers> constant of every representable (Rep, Exponent) format with 8..64-bit reps must be within one unit of the true constant (MPFR const_pi, exp, log, sqrt, const_euler)',
          'one listed known finding (8/16-bit and unsigned reps are off by 2..3 units for some inputs); the uint32 always-one defect was repaired (fix: commit 74de685) and is replayed as a regression; positive exponents are outside the stated quantifier (at least one integer bit, fractional formats)',
          'DESIGN.md section 5 C20'),
+ 'C15': ('generated programs: a seeded emitter writes translation units of literal tokens and constant-driven factory calls with their meaning computed by Python integers / Fractions; the compiled program compares value, digits, exponent and radix; rapidcheck grammar-generated tokens for the run-time parser',
+         'every emitted token (_c, _wide, _cnl, _cnl2; bases 2/8/10/16; chunk-boundary lengths; separators incl. inside the fraction; negated) must denote exactly its Python meaning, every boundary constant through make_elastic_integer / make_elastic_scaled_integer / make_scaled_integer / make_static_integer / make_static_number / CTAD must be held exactly with the promised digit count and exponent, and cnl::_impl::parse<T> must agree with GMP on generated well-formed tokens; a token that stops compiling is a violation',
+         'four listed known findings (two of them token classes that do not compile on the pinned tree and are excluded by construction in the emitter, with compile witnesses); tokens differ per VERIF_SEED; Clang 14 has no CTAD for alias templates, so CTAD is exercised under GCC only',
+         'DESIGN.md section 5 C15'),
 }
 
 def main():
